@@ -30,6 +30,35 @@ def label_sets(cls, kinds, bonds, qntot, qnidx, cap, seed):
     return lib.label_structures(kinds, bonds, qntot, qnidx, values=vals, cap=cap, cls="mps", stride_seed=seed)
 
 
+def canonicalisable(cls, kinds, bonds, qn, qntot, qnidx):
+    """structural test: can every off-centre site be an isometry towards the centre with these labels?
+    (the mask of allowed entries must have full structural rank on the bond facing the centre)"""
+    from scipy.sparse import csr_matrix
+    from scipy.sparse.csgraph import structural_rank
+    model = lib.make_model(kinds)
+    from renormalizer.mps.svd_qn import add_outer
+    n = len(kinds)
+    for i in range(n):
+        if i == qnidx:
+            continue
+        sq = np.asarray(model.basis[i].sigmaqn)
+        if cls == "mpo":
+            sq = add_outer(sq, -sq)
+        elif cls == "mpdm":
+            sq = add_outer(sq, np.zeros_like(sq))
+        shape = (bonds[i],) + tuple(sq.shape[:-1]) + (bonds[i + 1],)
+        m = lib.mask_for(sq, shape, i, [np.array(q) for q in qn], np.array([qntot]), qnidx)
+        if i < qnidx:
+            mat = m.reshape(-1, shape[-1])
+            need = shape[-1]
+        else:
+            mat = m.reshape(shape[0], -1)
+            need = shape[0]
+        if not mat.any() or structural_rank(csr_matrix(mat.astype(int))) < need:
+            return False
+    return True
+
+
 def build(ctx, P, name="a", kind="real"):
     from renormalizer.mps import MpDm
     model = lib.make_model(P["kinds"])
